@@ -191,15 +191,17 @@ TTBCR_T1SZ(s) == Slice(s.sys.TTBCR, 18, 16)
 TTBCR_EPD0(s) == Bit(s.sys.TTBCR, 7)
 TTBCR_EPD1(s) == Bit(s.sys.TTBCR, 23)
 
-\* read a 64-bit descriptor at the 40-bit address <<pa, ext>> (SCTLR.EE selects its endianness)
+\* read a 64-bit descriptor at the 40-bit address <<pa, ext>> (SCTLR.EE selects its endianness; HSCTLR.EE in the Hyp regime)
 ReadDesc64(s, pa, ext) ==
   LET bs0 == IF ext # 0 THEN [i \in 1..8 |-> 0] ELSE HubRead(s.mem, pa, 8).bytes
-      bs  == IF SCTLR_EE(s) = 1 THEN Reverse(bs0) ELSE bs0
+      ee  == IF Mode(s) = HYP THEN HSCTLR_EE(s) ELSE SCTLR_EE(s)
+      bs  == IF ee = 1 THEN Reverse(bs0) ELSE bs0
   IN [lo |-> BytesToWord(SubSeq(bs, 1, 4)), hi |-> BytesToWord(SubSeq(bs, 5, 8))]
 
 \* MAIRn.Attr<idx> -> memory type
+\* (the Hyp-mode regime uses HMAIR0 / HMAIR1)
 MAIRType(s, idx) ==
-  LET reg  == IF idx < 4 THEN s.sys.MAIR0 ELSE s.sys.MAIR1
+  LET reg  == IF Mode(s) = HYP THEN (IF idx < 4 THEN s.sys.HMAIR0 ELSE s.sys.HMAIR1) ELSE IF idx < 4 THEN s.sys.MAIR0 ELSE s.sys.MAIR1
       k    == idx % 4
       attr == Slice(reg, 8 * k + 7, 8 * k)
       hi4  == attr \div 16  lo4 == attr % 16
@@ -211,7 +213,7 @@ MAIRType(s, idx) ==
 \* MAIRDecode(attrindx) + the SH field of the block/page descriptor -> memory attributes.  The transient forms
 \* (Attr<7:6> = 00, Attr<7:4> = 01xx with xx # 00, Attr<3:0> = 0xxx other than 0100) are IMPLEMENTATION DEFINED here.
 MAIRAttrs(s, idx, shf) ==
-  LET reg  == IF idx < 4 THEN s.sys.MAIR0 ELSE s.sys.MAIR1
+  LET reg  == IF Mode(s) = HYP THEN (IF idx < 4 THEN s.sys.HMAIR0 ELSE s.sys.HMAIR1) ELSE IF idx < 4 THEN s.sys.MAIR0 ELSE s.sys.MAIR1
       k    == idx % 4
       attr == Slice(reg, 8 * k + 7, 8 * k)
       hi4  == attr \div 16  lo4 == attr % 16
@@ -246,26 +248,31 @@ WalkLDFrom(s, ia, level, first, startbit, base, tbl, unp) ==
        LET ap2 == IF tbl.rw THEN Bit(d.lo, 7) ELSE 1
            ap1 == IF tbl.user THEN Bit(d.lo, 6) ELSE 0
        IN IF Bit(d.lo, 10) = 0 THEN [f |-> "ACCESS_FLAG", level |-> level, unp |-> unp \/ pt.unp]
-          ELSE [f |-> "ok", level |-> level, unp |-> unp \/ pt.unp, ap |-> ap2 * 4 + ap1 * 2 + 1,
+          ELSE [f |-> "ok", level |-> level,
+                \* Hyp regime: AP<1> must be 1, APTable<0> 0, PXN 0, nG 0 (else UNPREDICTABLE)
+                unp |-> unp \/ pt.unp \/ (Mode(s) = HYP /\ (ap1 # 1 \/ Bit(d.hi, 21) # 0 \/ Bit(d.lo, 11) # 0)),
+                ap |-> ap2 * 4 + ap1 * 2 + 1,
                 pa |-> WOr(WAnd(d.lo, TopMask(32 - lsb)), WAnd(ia, MaskW(lsb - 1, 0))), ext |-> Slice(d.hi, 7, 0),
                 mt |-> MAIRType(s, Slice(d.lo, 4, 2)),
                 at |-> MAIRAttrs(s, Slice(d.lo, 4, 2), Slice(d.lo, 9, 8)),
                 nsb |-> IF tbl.sec THEN Bit(d.lo, 5) ELSE 1]
 
+\* the Hyp-mode regime (PL2) has one table base (HTTBR, HTCR.T0SZ), no EPD bits, and is never Secure
 WalkLD(s, ia) ==
-  LET t0 == TTBCR_T0SZ(s)  t1 == TTBCR_T1SZ(s)
+  LET hyp == Mode(s) = HYP
+      t0 == IF hyp THEN Slice(s.sys.HTCR, 2, 0) ELSE TTBCR_T0SZ(s)  t1 == TTBCR_T1SZ(s)
       use0 == t0 = 0 \/ IsZeroW(LSRw(ia, 32 - t0))
-      use1 == (t1 = 0 /\ ~use0) \/ (t1 > 0 /\ LSRw(ia, 32 - t1) = <<0, 2^t1 - 1>>)
+      use1 == (~hyp) /\ ((t1 = 0 /\ ~use0) \/ (t1 > 0 /\ LSRw(ia, 32 - t1) = <<0, 2^t1 - 1>>))
       tsz  == IF use1 THEN t1 ELSE t0
-      ttlo == IF use1 THEN s.sys.TTBR1 ELSE s.sys.TTBR0
-      tthi == IF use1 THEN s.sys.TTBR1H ELSE s.sys.TTBR0H
-      dis  == IF use1 THEN TTBCR_EPD1(s) = 1 ELSE TTBCR_EPD0(s) = 1
+      ttlo == IF hyp THEN s.sys.HTTBR ELSE IF use1 THEN s.sys.TTBR1 ELSE s.sys.TTBR0
+      tthi == IF hyp THEN s.sys.HTTBRH ELSE IF use1 THEN s.sys.TTBR1H ELSE s.sys.TTBR0H
+      dis  == (~hyp) /\ (IF use1 THEN TTBCR_EPD1(s) = 1 ELSE TTBCR_EPD0(s) = 1)
       level == IF tsz \div 2 = 0 THEN 1 ELSE 2
       lb   == 9 * level - tsz - 4
       base == <<WAnd(ttlo, TopMask(32 - lb)), Slice(tthi, 7, 0)>>
       unp  == lb > 3 /\ Slice(ttlo, lb - 1, 3) # 0
   IN IF (~use0 /\ ~use1) \/ dis THEN [f |-> "TRANSLATION", level |-> 1, unp |-> FALSE]
-     ELSE WalkLDFrom(s, ia, level, TRUE, 31 - tsz, base, [rw |-> TRUE, user |-> TRUE, xn |-> FALSE, pxn |-> FALSE, sec |-> IsSecure(s)], unp)
+     ELSE WalkLDFrom(s, ia, level, TRUE, 31 - tsz, base, [rw |-> TRUE, user |-> TRUE, xn |-> FALSE, pxn |-> FALSE, sec |-> (~hyp) /\ IsSecure(s)], unp)
 
 \* CheckPermission for VMSA: AP<0> forced to 1 under AFE; AP = 100 reserved; 111 = read-only
 PermAbortV(ap0, afe, priv, iswrite) ==
@@ -293,8 +300,8 @@ TranslateS1(x, va, priv, iswrite, size, wasaligned) ==
           THEN IF ishyp THEN [x |-> NotImpl(x, "unmodelled:hyp-abort"), pa |-> mva, ext |-> 0]
                ELSE [x |-> DataAbortSD(UnpredIf(x, ~s.cfg.virt), mva, iswrite, "ALIGNMENT", 1, 0), pa |-> mva, ext |-> 0]
           ELSE [x |-> x, pa |-> mva, ext |-> 0]
-     ELSE IF ishyp \/ (TTBCR_EAE(s) = 1 /\ ~s.cfg.lpae) THEN [x |-> NotImpl(x, "unmodelled:long-descriptor"), pa |-> mva, ext |-> 0]
-     ELSE IF TTBCR_EAE(s) = 1 THEN
+     ELSE IF (~ishyp) /\ TTBCR_EAE(s) = 1 /\ ~s.cfg.lpae THEN [x |-> NotImpl(x, "unmodelled:long-descriptor"), pa |-> mva, ext |-> 0]
+     ELSE IF ishyp \/ TTBCR_EAE(s) = 1 THEN
        LET w  == WalkLD(s, mva)
            x0 == UnpredIf(x, w.unp)
            LDFault(xx) == NotImpl(xx, "tlb_lookup_came_from_cache_maintenance")     \* every long-descriptor-format fault
@@ -344,8 +351,7 @@ AttrsS1(s, va) ==
   IN IF ~on THEN
        LET so == (~s.cfg.virt) \/ HCR_DC(s) = 0 \/ IsSecure(s) \/ ishyp
        IN [at |-> IF so THEN AttrSO ELSE MkAttr("NORMAL", 3, 3, 3, 3, 0, 0, {}), ns |-> nsOut(0)]
-     ELSE IF ishyp THEN [at |-> AttrUnknown, ns |-> 2]
-     ELSE IF TTBCR_EAE(s) = 1 THEN
+     ELSE IF ishyp \/ TTBCR_EAE(s) = 1 THEN
        LET w == WalkLD(s, mva) IN
        IF w.f = "ok" THEN [at |-> w.at, ns |-> nsOut(w.nsb)] ELSE [at |-> AttrUnknown, ns |-> 2]
      ELSE
